@@ -264,6 +264,15 @@ func (x *Exec) applyContract(st *State, fr *Frame, retTo ssa.Value, c *Contract,
 	for _, loc := range c.Modifies {
 		x.havocLoc(st, env, loc, c)
 	}
+	// interference by other goroutines while this call blocks: forgotten, and exempt from the caller's frame
+	for _, loc := range c.Interf {
+		if lv, ok := x.evalLoc(env, loc, c).(FieldPtr); ok {
+			x.flattenField(st, lv.Ref, lv.S, lv.SN, lv.Idx, st.interfered)
+			st.havocField(lv.Ref, lv.S, lv.SN, lv.Idx)
+		} else {
+			panic(unsupported{"interference location " + loc})
+		}
+	}
 	// result
 	var res Val
 	nres := sig.Results().Len()
@@ -398,7 +407,8 @@ func (x *Exec) pureResult(st *State, key string, sig *types.Signature, args []Va
 func (x *Exec) panicKind(st *State, pv Term, kind string) Term {
 	switch kind {
 	case "any":
-		return tNot(tSame(pv, Term{S: "any_nil", Sort: sAny}))
+		// any panic value (a panic(nil) is not modelled); Goexit is not a panic
+		return tAnd(tNot(tSame(pv, Term{S: "any_nil", Sort: sAny})), tNot(x.panicKind(st, pv, "goexit")))
 	case "invalidData", "stopTest":
 		tag := fmt.Sprint(x.typeTag(x.namedType(kind)))
 		return Term{S: "(and ((_ is any_str) " + pv.S + ") (= (any_str_tag " + pv.S + ") " + tag + "))", Sort: sBool}
